@@ -1349,6 +1349,13 @@ func init() {
 				c15QFlush(r, &pend)
 			}
 		}
+		// dedicated probe of the listed finding F7g: Count on a one-entry `K AS k7` string Select
+		if listed("F7g-C15-count-alias") {
+			three := 3
+			probe := &c15QSpec{Rows: []c15QRow{{ID: 1, Name: "Ann", Age: &three, Score: 1, Grp: "x"}, {ID: 2, Name: "bob", Score: 2, Grp: "y"}},
+				Bind: "model", Form: "str1", Items: []c15QItem{{Key: "k7", K: 3}}, Handle: "fresh", Paths: []c15QPath{{Path: "count"}, {Path: "find.maps"}}}
+			c15QRunSpec(r, probe, &pend)
+		}
 		c15QFlush(r, &pend)
 	})
 	replayers["C15/select"] = func(r *Result, input json.RawMessage) {
